@@ -1,5 +1,10 @@
 import Driver.Lat
-/-! Driver ops of C19 (shared table in Driver/Lat.lean; syntax in harness/lat/doc.go). -/
+import Driver.DescC19
+/-! Driver ops of C19: the shared lattice table (Driver/Lat.lean; syntax in harness/lat/doc.go) and the structure of the mismatch
+    description (Driver/DescC19.lean; syntax in harness/c19/descs.go). -/
 namespace C19
-def exec : List Sx.Sexp → String := Lat.execOnly ["desc", "assert", "asg", "inst"]
+def exec : List Sx.Sexp → String
+  | .atom "descs" :: rest => DescC19.exec (.atom "descs" :: rest)
+  | .atom "descx" :: rest => DescC19.exec (.atom "descx" :: rest)
+  | xs => Lat.execOnly ["desc", "assert", "asg", "inst"] xs
 end C19
